@@ -78,7 +78,7 @@ def Strings.used (t : Strings) : Nat := t.storage.length
 inductive Mode | read | write | rdwr
 deriving DecidableEq, Repr
 
-/-- the slot loop of psf_store_string: entries of the same type are marked -1 on the way, the walk stops at the first
+/-- the slot loop of psf_store_string before the repair: entries of the same type are marked -1 on the way, the walk stops at the first
     free slot.  Returns the slots as the loop leaves them and the index `k` (= number of slots when none is free).
     With `ty = 0` every free slot "matches" and is marked -1 (the caller's type is validated only later). -/
 def scan (ty : Int) : List Slot → List Slot × Nat
@@ -91,14 +91,16 @@ def scan (ty : Int) : List Slot → List Slot × Nat
 def validType (ty : Int) : Bool :=
   ty = 1 || ty = 2 || ty = 3 || ty = 4 || ty = 5 || ty = 6 || ty = 7 || ty = 8 || ty = 9 || ty = 16
 
-/-- the text stored for SF_STR_SOFTWARE in write mode: `snprintf (new_str [128], …)` — the suffix is appended unless the
-    package name already occurs, and the result is cut to 127 bytes -/
+/-- the text stored for SF_STR_SOFTWARE in write mode: the suffix is appended unless the package name already occurs
+    (built in a buffer of the size it needs since the repair) -/
 def softwareText (pkgName pkgVersion s : List Byte) : List Byte :=
-  let full :=
-    if isInfix pkgName s then s
-    else if s.isEmpty then pkgName ++ [45] ++ pkgVersion
-    else s ++ [32, 40] ++ pkgName ++ [45] ++ pkgVersion ++ [41]
-  full.take 127
+  if isInfix pkgName s then s
+  else if s.isEmpty then pkgName ++ [45] ++ pkgVersion
+  else s ++ [32, 40] ++ pkgName ++ [45] ++ pkgVersion ++ [41]
+
+/-- the rule before the repair ("fix: SF_STR_SOFTWARE strings were cut to 127 bytes"): the text went through
+    `char new_str [128]` -/
+def softwareTextOld (pkgName pkgVersion s : List Byte) : List Byte := (softwareText pkgName pkgVersion s).take 127
 
 structure Env where
   mode        : Mode
@@ -109,9 +111,42 @@ deriving Repr
 
 def isWriteMode (m : Mode) : Bool := m = .write || m = .rdwr
 
+/-- the slot loop since the repair ("fix: a refused sf_set_string erased the string it was meant to replace"): the index of
+    the first free slot (= number of slots when none is free); nothing is modified -/
+def firstFree : List Slot → Nat
+  | [] => 0
+  | s :: rest => if s.type = 0 then 0 else firstFree rest + 1
+
+/-- entries of type `ty` among the first `k` slots are marked as replaced (done only once the call cannot fail any more) -/
+def markBefore (ty : Int) : Nat → List Slot → List Slot
+  | 0, l => l
+  | _, [] => []
+  | k+1, s :: rest => (if s.type = ty then { s with type := -1 } else s) :: markBefore ty k rest
+
 /-- `psf_store_string (psf, str_type, str)` for a non-NULL `str` (a NUL-free byte list).  Returns the error code
-    (0 = stored) and the table afterwards (the slot loop's marks persist on the error paths that come after it). -/
+    (0 = stored) and the table afterwards; a refused call leaves the table as it was. -/
 def store (e : Env) (t : Strings) (ty : Int) (str : List Byte) : Nat × Strings :=
+  if isWriteMode e.mode && (t.flags &&& SF_STR_ALLOW_START) = 0 then (SFE_STR_NO_SUPPORT, t)
+  else if isWriteMode e.mode && e.haveWritten && (t.flags &&& SF_STR_ALLOW_END) = 0 then (SFE_STR_NO_SUPPORT, t)
+  else if isWriteMode e.mode && ty ≠ 3 && str.isEmpty then (SFE_STR_BAD_STRING, t)
+  else
+    let k := firstFree t.slots
+    let atEnd : Bool := e.mode = .rdwr || e.haveWritten
+    if atEnd && (t.flags &&& SF_STR_ALLOW_END) = 0 then (SFE_STR_NO_ADD_END, t)
+    else if k ≥ t.slots.length then (SFE_STR_MAX_COUNT, t)
+    else if k = 0 && t.used ≠ 0 then (SFE_STR_WEIRD, t)
+    else if k ≠ 0 && t.used = 0 then (SFE_STR_WEIRD, t)
+    else if !validType ty then (SFE_STR_BAD_TYPE, t)
+    else
+      let text := if ty = 3 && isWriteMode e.mode then softwareText e.pkgName e.pkgVersion str else str
+      let len := text.length + 1
+      let cap := if t.storage.length + len + 1 > t.cap then max 256 (2 * t.cap + len + 1) else t.cap
+      let fl := if atEnd then SF_STR_LOCATE_END else SF_STR_LOCATE_START
+      (0, { slots := (markBefore ty k t.slots).set k ⟨ty, fl, t.storage.length⟩, storage := t.storage ++ text ++ [0], cap := cap, flags := t.flags ||| fl })
+
+/-- psf_store_string before the repair: the slot loop (`scan`) marked entries while searching, so its marks persisted on the error
+    paths that come after it; the software text went through the 128-byte buffer -/
+def storeOld (e : Env) (t : Strings) (ty : Int) (str : List Byte) : Nat × Strings :=
   if isWriteMode e.mode && (t.flags &&& SF_STR_ALLOW_START) = 0 then (SFE_STR_NO_SUPPORT, t)
   else if isWriteMode e.mode && e.haveWritten && (t.flags &&& SF_STR_ALLOW_END) = 0 then (SFE_STR_NO_SUPPORT, t)
   else if isWriteMode e.mode && ty ≠ 3 && str.isEmpty then (SFE_STR_BAD_STRING, t)
@@ -126,7 +161,7 @@ def store (e : Env) (t : Strings) (ty : Int) (str : List Byte) : Nat × Strings 
     else if k ≠ 0 && t.used = 0 then (SFE_STR_WEIRD, t1)
     else if !validType ty then (SFE_STR_BAD_TYPE, t1)
     else
-      let text := if ty = 3 && isWriteMode e.mode then softwareText e.pkgName e.pkgVersion str else str
+      let text := if ty = 3 && isWriteMode e.mode then softwareTextOld e.pkgName e.pkgVersion str else str
       let len := text.length + 1
       let cap := if t.storage.length + len + 1 > t.cap then max 256 (2 * t.cap + len + 1) else t.cap
       let fl := if atEnd then SF_STR_LOCATE_END else SF_STR_LOCATE_START
@@ -290,7 +325,8 @@ structure Bext where
 deriving DecidableEq, Repr
 
 def BEXT_MIN : Nat := 602
-def BEXT_MAX : Nat := 10 * 1024
+def BEXT_MAX : Nat := BEXT_MIN + 16 * 1024      -- WAV_BEXT_MAX_CHUNK_SIZE since the repair: what the writer can produce
+def BEXT_MAX_OLD : Nat := 10 * 1024            -- … before ("fix: bext chunks with more than 9638 bytes of coding history were dropped on reading")
 def BEXT_STRUCT_16K : Nat := 608 + 16384
 
 /-- the field widths hold (what the C struct guarantees) -/
@@ -320,10 +356,10 @@ def writeBext (b : Bext) : List Byte :=
 def splitAtN (n : Nat) (b : List Byte) : List Byte × List Byte := (b.take n, b.drop n)
 
 /-- wavlike_read_bext_chunk on the chunk (id, size, payload).  `none`: the chunk is skipped. -/
-def readBext (chunk : List Byte) : Option Bext :=
+def readBextWith (maxSize : Nat) (chunk : List Byte) : Option Bext :=
   let size := ofLE ((chunk.drop 4).take 4)
   let p := chunk.drop 8
-  if size < BEXT_MIN ∨ size > BEXT_MAX ∨ size ≥ BEXT_STRUCT_16K then none
+  if size < BEXT_MIN ∨ size > maxSize ∨ size ≥ BEXT_STRUCT_16K then none
   else
     some { description := p.take 256, originator := (p.drop 256).take 32, originatorRef := (p.drop 288).take 32,
            date := (p.drop 320).take 10, time := (p.drop 330).take 8,
@@ -333,6 +369,9 @@ def readBext (chunk : List Byte) : Option Bext :=
            l4 := ofLE ((p.drop 418).take 2), l5 := ofLE ((p.drop 420).take 2),
            reserved := zeros 180,
            history := (p.drop 602).take (size - BEXT_MIN) }
+
+def readBext (chunk : List Byte) : Option Bext := readBextWith BEXT_MAX chunk
+def readBextOld (chunk : List Byte) : Option Bext := readBextWith BEXT_MAX_OLD chunk
 
 /-! ## 5. cart -/
 
@@ -363,12 +402,17 @@ def setCart (junk : Byte) (info : Cart) : Cart := { info with tag := normTag jun
 def writeCart (c : Cart) : List Byte :=
   mk "cart" ++ le4 (CART_MIN + c.tag.length) ++ c.head ++ zeros 276 ++ c.url ++ c.tag
 
-def readCart (chunk : List Byte) : Option Cart :=
+def readCartWith (limit : Nat) (chunk : List Byte) : Option Cart :=
   let size := ofLE ((chunk.drop 4).take 4)
   let p := chunk.drop 8
-  if size < CART_MIN ∨ size ≥ CART_STRUCT_16K - 4 then none
+  if size < CART_MIN ∨ size ≥ limit then none
   else some { head := p.take 748, reserved := (p.drop 748).take 276, url := (p.drop 1024).take 1024,
               tag := (p.drop 2048).take (size - CART_MIN) }
+
+/-- `chunksize > sizeof (SF_CART_INFO_16K) - 4` since the repair; `>=` before ("fix: a cart chunk whose tag text fills
+    SF_CART_INFO_16K was refused on reading") -/
+def readCart (chunk : List Byte) : Option Cart := readCartWith (CART_STRUCT_16K - 3) chunk
+def readCartOld (chunk : List Byte) : Option Cart := readCartWith (CART_STRUCT_16K - 4) chunk
 
 /-! ## 6. cue points -/
 
@@ -538,6 +582,9 @@ def step (pkgName pkgVersion : List Byte) (h : MetaState) : Op → Nat × MetaSt
     else if h.bext.isNone ∧ h.haveWritten then (0, h)
     else if datasize < 608 ∨ 608 + declared > datasize then (0, h)
     else if datasize ≥ BEXT_STRUCT_16K then (0, h)
+    -- after the audio the chunk must keep its size ("fix: SFC_SET_BROADCAST_INFO / SFC_SET_CART_INFO after audio data could
+    -- overwrite the audio"); before the repair every second block was accepted
+    else if h.haveWritten ∧ (h.bext.map fun o => o.history.length) ≠ some (setBext h.mode line b).history.length then (0, h)
     else (1, { h with bext := some (setBext h.mode line b) })
   | .setCart junk c declared datasize =>
     if h.cont ≠ .wav ∧ h.cont ≠ .rf64 then (0, h)
@@ -545,15 +592,31 @@ def step (pkgName pkgVersion : List Byte) (h : MetaState) : Op → Nat × MetaSt
     else if h.cart.isNone ∧ h.haveWritten then (0, h)
     else if datasize < 2052 ∨ 2052 + declared > datasize then (0, h)
     else if datasize ≥ CART_STRUCT_16K then (0, h)
+    else if h.haveWritten ∧ (h.cart.map fun o => o.tag.length) ≠ some (setCart junk c).tag.length then (0, h)
     else (1, { h with cart := some (setCart junk c) })
   | .setCues cs =>
     if h.haveWritten then (0, h)
-    else if h.cues.isSome then (1, h)           -- a second SFC_SET_CUE reports success and keeps the first set
-    else (1, { h with cues := some cs })
+    else (1, { h with cues := some cs })        -- a later call replaces the earlier one ("fix: a second SFC_SET_CUE …")
   | .setInst i =>
     if h.haveWritten then (0, h)
     else (1, { h with inst := some i })
   | .writeAudio bytes => (bytes.length, { h with haveWritten := true, audio := h.audio ++ bytes })
+
+/-- the three rules of `step` as they were before the repairs: a second SFC_SET_CUE reported success and kept the first set;
+    a second bext / cart block after the audio was accepted whatever its size -/
+def stepOld (pkgName pkgVersion : List Byte) (h : MetaState) : Op → Nat × MetaState
+  | .setCues cs =>
+    if h.haveWritten then (0, h)
+    else if h.cues.isSome then (1, h)
+    else (1, { h with cues := some cs })
+  | .setBext line b declared datasize =>
+    if h.cont ≠ .wav ∧ h.cont ≠ .wavex ∧ h.cont ≠ .rf64 then (0, h)
+    else if h.mode = .read then (0, h)
+    else if h.bext.isNone ∧ h.haveWritten then (0, h)
+    else if datasize < 608 ∨ 608 + declared > datasize then (0, h)
+    else if datasize ≥ BEXT_STRUCT_16K then (0, h)
+    else (1, { h with bext := some (setBext h.mode line b) })
+  | op => step pkgName pkgVersion h op
 
 /-- the metadata chunks wav_write_header puts between `fmt ` and `data`, in its order -/
 def headerMeta (period : Nat) (h : MetaState) : List Byte :=
